@@ -87,7 +87,7 @@ def _shape(rng, lo, hi, force_nonsquare):
 def plan(tier, seed):
     rng = np.random.default_rng([seed, 18, 4242])
     specs = []
-    n_com, n_fit, n_shift = (1200, 400, 400) if tier == "quick" else (30000, 10000, 10000)
+    n_com, n_fit, n_shift = (1200, 400, 400) if tier == "quick" else (120000, 40000, 40000)
     # every scan shape 2..7 x 2..7 appears at least once
     scans = [[a, b] for a in range(2, 8) for b in range(2, 8)]
     for k in range(n_com):
